@@ -485,11 +485,14 @@ class MATD3(MultiAgentRLAlgorithm):
             actor.train()
             if training:
                 if self.discrete_actions:
-                    min_action, max_action = 0, 1
+                    min_action, max_action = (
+                        torch.zeros(1, device=actions.device),
+                        torch.ones(1, device=actions.device),
+                    )
                 else:
                     min_action, max_action = (
-                        self.min_action[idx][0],
-                        self.max_action[idx][0],
+                        torch.as_tensor(self.min_action[idx], device=actions.device),
+                        torch.as_tensor(self.max_action[idx], device=actions.device),
                     )
 
                 # Add noise to actions for exploration
